@@ -1458,6 +1458,9 @@ func (t *tr) ret(s *ast.ReturnStmt, sc scope) lx {
 		if t.optional {
 			return lAtom("some " + v)
 		}
+		if len(vals) > 1 {
+			return lAtom(v) // a tuple keeps its parentheses
+		}
 		return lAtom(strip(v))
 	}
 	if len(s.Results) == 0 {
@@ -1717,7 +1720,7 @@ func translateFunc(p *pkg, spec transSpec) (defs []leanDef, err error) {
 	var inits []param
 	for _, f := range t.fd.Type.Results.List {
 		rt := goType(f.Type)
-		if rt != tErr && rt.zero() == "" && !(len(f.Names) == 0 && (rt == tIP || rt == tAddr)) {
+		if rt != tErr && rt.zero() == "" && !(len(f.Names) == 0 && (rt == tIP || rt == tAddr || rt == tTime)) {
 			t.fail(f, "result type "+exprString(f.Type))
 		}
 		n := len(f.Names)
@@ -2229,6 +2232,23 @@ func genTrans(repo, outDir string) error {
 	} else {
 		sb.WriteString(d.text + "\n\n")
 		facts["TransC10.Dialer_init_switch"] = d.text
+	}
+	// the multicast rate limit of (*Advertiser).schedule (translate_synth.go)
+	curTag = "TransC06"
+	if p, err := loadPkg(repo, "internal/corerad"); err != nil {
+		failf("translate: Advertiser.schedule: %v", err)
+	} else if defs, src, err := translateScheduleMC(p); err != nil {
+		failf("%s", err)
+		sb.WriteString("-- NOT TRANSLATED: " + docSafe(err.Error()) + "\n\n")
+		facts["TransC06.Advertiser_schedule_mc"] = "NOT TRANSLATED: " + err.Error()
+	} else {
+		var all []string
+		for _, d := range defs {
+			sb.WriteString(d.text + "\n\n")
+			all = append(all, d.text)
+		}
+		facts["TransC06.Advertiser_schedule_mc"] = strings.Join(all, "\n")
+		facts["TransC06.Advertiser_schedule_mc.go"] = src
 	}
 	sb.WriteString("end Corerad.Gen.Trans\n")
 	p := filepath.Join(outDir, "Trans.lean")
